@@ -48,6 +48,15 @@ def run(ctx):
                         count[l] = count.get(l, 0) + 1
             return seq
 
+        def next_presence(c, seq):
+            """(k, some) when the condition says whether the k-th next() call gave Some: a discriminant test, or .is_some() / .is_none() on it"""
+            t = c.term
+            if t[0] == "discr" and strip_refs(t[1]) in seq:
+                return seq[strip_refs(t[1])], (c.fact == ("eq", 1) or (c.fact[0] == "ne" and 0 in c.fact[1]))
+            if is_call(t, "Option::is_some", "Option::is_none") and call_args(t) and strip_refs(call_args(t)[0]) in seq and c.fact[0] == "eq" and isinstance(c.fact[1], bool):
+                return seq[strip_refs(call_args(t)[0])], (c.fact[1] == is_call(t, "Option::is_some"))
+            return None
+
         _KT = {}
 
         def kind_table(pred):
@@ -123,10 +132,9 @@ def run(ctx):
                 for c in p.conds():
                     t = c.term
                     lf = length_fact(c)
-                    if t[0] == "discr" and strip_refs(t[1]) in seq:
+                    if next_presence(c, seq) is not None:
                         # it.next() (k-th call) was Some / None: more than k components / at most k
-                        k = seq[strip_refs(t[1])]
-                        some = c.fact == ("eq", 1) or (c.fact[0] == "ne" and 0 in c.fact[1])
+                        k, some = next_presence(c, seq)
                         if c.fact[0] == "ne" and 0 in c.fact[1] and 1 in c.fact[1]:
                             ok = False          # an Option that is neither None nor Some: the arm the compiler adds for completeness, never taken
                         if some != (n > k):
@@ -208,10 +216,9 @@ def run(ctx):
                 # the length as established by successive next() calls: Some for every position below n, None at n
                 def consistent(k):
                     for c in p.conds():
-                        if c.term[0] == "discr" and strip_refs(c.term[1]) in seq:
-                            some = c.fact == ("eq", 1) or (c.fact[0] == "ne" and 0 in c.fact[1])
-                            if some != (k > seq[strip_refs(c.term[1])]):
-                                return False
+                        np_ = next_presence(c, seq)
+                        if np_ is not None and np_[1] != (k > np_[0]):
+                            return False
                     return True
                 cand = [k for k in range(0, 8) if consistent(k)]
             if len(cand) == 1:
